@@ -264,6 +264,43 @@ def mpi_variant(rng, s, info, worlds=(2, 3, 5, 8)):
             out.append(e)
     return out, ['mpi_shim', 'world_%d' % P]
 
+def big_run(rng, fmt, kind, *, dims=1, bins=4, channels=2, iters=2, calls=(6,), ndists=0, dist_bins=(3, 1), ops_fn=None, trace=0):
+    """a run whose structure sizes are chosen by the caller (polynomial integrand, default checkpoint, grid map)"""
+    f = rand_poly(rng, fmt, dims)
+    chk = {'plain': ['plain'], 'vegas': ['default', bins, fmt.rtok(Fraction(3, 2))], 'mc': ['default', fmt.rtok(Fraction(1, 1000)), fmt.rtok(Fraction(1, 4))]}[kind]
+    z, o = fmt.tok(Fraction(0)), fmt.tok(Fraction(1))
+    dl = [[dist_bins[0], dist_bins[1], z, o, z, o, rand_name(rng)] for _ in range(ndists)]
+    src = 'c' if kind == 'mc' else 'p'
+    fills = [[j, [src, j % dims], ([src, (j + 1) % dims] if dist_bins[1] > 1 else '-'), ['v']] for j in range(ndists)]
+    mp = rand_map_grid(rng, fmt, channels, dims) if kind == 'mc' else None
+    cl_calls = [rng.choice(list(calls)) for _ in range(iters)]
+    ops = ops_fn(cl_calls) if ops_fn else [['run', cl_calls], ['dump']]
+    s = spec_run(kind, fmt, dims=dims, channels=channels if kind == 'mc' else 1, seed=rng.getrandbits(32), chk=chk, f=f, dists=dl, fills=fills, tables=[], mp=mp, trace=trace, ops=ops)
+    return s, {'kind': kind, 'dims': dims, 'channels': channels if kind == 'mc' else 1, 'calls': cl_calls}
+
+def gen_sizes(c, rng, tier, t, families, ops_fn=None, per=1):
+    """structure sizes far above the ordinary cases: around powers of two (narrow index types, small buffers) and odd (halving schemes)"""
+    fmt = FMTS[t]
+    n = per if tier == 'quick' else 3 * per
+    for fam in families:
+        for _ in range(n):
+            if fam == 'bins':
+                b = rng.choice([129, 255, 256, 257, 300]); s, info = big_run(rng, fmt, 'vegas', dims=rng.choice([1, 2]), bins=b, iters=3, calls=(24, 60), ops_fn=ops_fn); cl = ['vegas_bins_%d' % b]
+            elif fam == 'dims':
+                d = rng.choice([5, 9, 17, 33]); k = rng.choice(['plain', 'vegas']); s, info = big_run(rng, fmt, k, dims=d, bins=3, iters=2, calls=(4, 7), ops_fn=ops_fn); cl = ['dims_%d' % d, 'kind_' + k]
+            elif fam == 'iterations':
+                m = rng.choice([33, 65, 130]); k = rng.choice(KINDS); s, info = big_run(rng, fmt, k, dims=1, bins=2, iters=m, calls=(1, 2, 3), ops_fn=ops_fn); cl = ['iterations_%d' % m, 'kind_' + k]
+            elif fam == 'dists':
+                nd = rng.choice([9, 17, 33]); k = rng.choice(KINDS); s, info = big_run(rng, fmt, k, dims=2, bins=2, iters=2, calls=(5, 9), ndists=nd, dist_bins=(2, 1), ops_fn=ops_fn); cl = ['distributions_%d' % nd, 'kind_' + k]
+            elif fam == 'dist_bins':
+                bx, by = rng.choice([(256, 1), (257, 1), (300, 1), (17, 17), (3, 100), (1000, 1)] + ([(70000, 1), (300, 300)] if tier == 'thorough' else []))
+                k = rng.choice(KINDS); s, info = big_run(rng, fmt, k, dims=2, bins=2, iters=2, calls=(20, 40), ndists=1, dist_bins=(bx, by), ops_fn=ops_fn); cl = ['distribution_bins_%dx%d' % (bx, by), 'kind_' + k]
+            elif fam == 'channels':
+                ch = rng.choice(BIG_COUNTS[:8]); s, info = big_run(rng, fmt, 'mc', dims=1, channels=ch, iters=2, calls=(12, 20), ops_fn=ops_fn); cl = ['many_channels', 'channels_%d' % ch]
+            else:
+                raise ValueError(fam)
+            c.add(t, 'run', s, classes=cl + ['large_structure'], info=info)
+
 # ------------------------------------------------------------------------------------------------
 @prop('C16', 'exhaustive total<=T x world<=W x rank (quick: 24x9, thorough: 64x33) plus sampled values up to 2^40; '
       'non-trivial = total not divisible by world or total < world', COMMON_ASSUMPTIONS[1:] +
@@ -431,6 +468,7 @@ def gen_C07(c, rng, tier):
             us = [rand_unit(rng, fmt) if rng.random() < 0.7 else Fraction(0) for _ in range(dims)]
             c.add(t, 'icdf', [bins, dims, toks(fmt, xs), toks(fmt, us)], classes=['icdf_many_dims'])
     gen_C07_runs(c, rng, tier)
+    for t in TYPES: gen_sizes(c, rng, tier, t, ['bins'])
 
 @prop('C08', 'weight vectors (normalised or not, with zeros) x adjustment data (all-zero, single non-zero, random, huge/tiny) x beta in (0,1] x minimum '
       'weight in [0,1/n); 3 types; non-trivial = a zero weight, a zero datum or an active floor', COMMON_ASSUMPTIONS +
@@ -558,6 +596,7 @@ def gen_C13(c, rng, tier):
                                        value_classes=['small_int', 'frac', 'neg', 'zero', 'nan', 'tiny', 'big'])
                 s = [e for e in s if e[0] != 'ops'] + [['ops', [['run', info['calls']], ['combine', 'wwv'], ['combine', 'weq']]]]
                 c.add(t, 'run', s, classes=cl + ['combine_with_distributions'] + (['two_d'] if any(d[1] > 1 for d in dl) else []), nontrivial=iters >= 2, info=info)
+    for t in TYPES: gen_sizes(c, rng, tier, t, ['iterations'], ops_fn=lambda cs: [['run', cs], ['combine', 'wwv'], ['combine', 'weq']])
 
 @prop('C14', 'value sequences (one large then many small, alternating signs, geometric decay, random magnitudes, constant) of length 1..N '
       '(quick N<=2000, thorough N<=50000) through hep::accumulate; 3 types; the exact-oracle runs up to 10^7 values are C++-only; non-trivial = length >= 3',
@@ -605,6 +644,7 @@ def gen_C02(c, rng, tier):
                 s, cl, info = rand_run(rng, fmt, kind, trace=1)
                 s, cl2 = mpi_variant(rng, s, info)
                 c.add(t, 'run', s, classes=cl + cl2, nontrivial=any(x >= 2 for x in info['calls']), info=info)
+    for t in TYPES: gen_sizes(c, rng, tier, t, ['dims', 'dists', 'iterations'])
 
 @prop('C06', 'paired runs (poisoned / zeroed twin) over 2-4 adaptive iterations; NaN, +inf, -inf from the integrand, from the fill value and from the weight '
       '(infinite jacobian, zero density sum); all three integrators and types; non-trivial = at least one non-finite and one finite evaluation',
@@ -644,6 +684,7 @@ def gen_C10(c, rng, tier):
                 c.add(t, 'run', s, classes=cl, nontrivial=(kind == 'mc' or any('value_nan' == x or 'value_inf' == x for x in cl)), info=info)
     for b, l in itertools.product([24, 53, 64], [1, 2, 8, 16, 24, 30, 31, 32, 48, 63, 64]):
         c.add('d', 'usage', [b, l], classes=['usage_k'], model_only=True)
+    for t in TYPES: gen_sizes(c, rng, tier, t, ['dims', 'channels'])
 
 @prop('C11', '1-d and 2-d binnings (negative, tiny, huge, non-unit ranges) with coordinates interior / on every edge / +-1 ulp / outside / +-inf / NaN / 2^70, '
       'several distributions per integrand, the same distribution filled twice, fill values from tables; three integrators and types; '
@@ -670,6 +711,7 @@ def gen_C11(c, rng, tier):
                 huge = [fmt.round(fmt.max / rng.choice([1, 2, 3])), fmt.round(-fmt.max / 2), fmt.round(Fraction(2) ** (fmt.emax - 3)), Fraction(1), Fraction(0)]
                 s = [e if e[0] != 'f' else ['f', ['tab', toks(fmt, [rng.choice(huge) for _ in range(7)])]] for e in s]
                 c.add(t, 'run', s, classes=cl + ['huge_finite_values', 'weights_not_one'], info=info)
+    for t in TYPES: gen_sizes(c, rng, tier, t, ['dist_bins', 'dists'])
 
 @prop('C12', 'scripted user callbacks returning false at every position of 1-6 iteration lists; the built-in callback on zero / constant / zero-mean / non-finite '
       'integrands with targets 0, tiny, moderate, 1; four modes; resumed checkpoints; non-trivial = at least two requested iterations',
@@ -855,6 +897,7 @@ def gen_C19(c, rng, tier):
                 calls = info['calls']
                 s = [e for e in s if e[0] != 'ops'] + [['ops', [['run', calls[:1]], ['reload'], ['run', calls[1:]], ['rollback', 0], ['run', calls], ['dump']]]]
                 c.add(t, 'run', s, classes=cl + ['reload_resume_rollback_redo'], info=info)
+    for t in TYPES: gen_sizes(c, rng, tier, t, ['bins', 'channels'])
 
 @prop('C20', 'the same run under the four callback modes (results, generator positions, next state compared between modes and with the model); multi-channel '
       'summaries for 1-40 channels with all-equal, all-but-one-minimal and disabled-channel weight patterns: index skeleton (channel numbers, N=, ranges) '
@@ -955,6 +998,7 @@ def gen_C03(c, rng, tier):
                     s = [e for e in s0 if e[0] != 'ops'] + [['ops', ops]]
                     c.add(t, 'run', s, classes=cl + ['cuts_%d' % sum(cuts)], resume_group=group, nontrivial=sum(cuts) > 0, info=info)
     gen_C03_target(c, rng, tier)
+    for t in TYPES: gen_sizes(c, rng, tier, t, ['iterations', 'bins'], ops_fn=lambda cs: [['run', cs[:len(cs) // 2]], ['reload'], ['run', cs[len(cs) // 2:]], ['text']])
 
 def gen_C03_target(c, rng, tier):
     """early stop by target precision on resumed runs: the decision after the interruption must take the earlier iterations into account,
@@ -1019,6 +1063,7 @@ def gen_C05(c, rng, tier):
                                            value_classes=['small_int', 'frac', 'neg', 'zero', 'big', 'tiny'])
                 s = [e for e in s if e[0] != 'ops'] + [['ops', [['run', info['calls']], ['dump'], ['text'], ['reload'], ['dump'], ['text']]]]
                 c.add(t, 'run', s, classes=cl, nontrivial=len(info['calls']) > 0, info=info)
+    for t in TYPES: gen_sizes(c, rng, tier, t, ['bins', 'dims', 'iterations', 'dists', 'dist_bins', 'channels'], ops_fn=lambda cs: [['run', cs], ['dump'], ['text'], ['reload'], ['dump'], ['text']])
 
 @prop('C15', 'histories built from run(m), serialise+reload, rollback(k) for all k in 0..n+1, resume(m\'), for PLAIN, VEGAS (default and user grid) and '
       'multi-channel (default and user weights with disabled channels); serialised text and generator compared with the model and with the truncated real run; '
@@ -1066,6 +1111,7 @@ def gen_C15(c, rng, tier):
                         s = [e for e in s0 if e[0] != 'ops'] + [['ops', ops]]
                         c.add(t, 'run', s, classes=cl + ['reload_resume_rollback', 'rollback_%s' % ('0' if k == 0 else 'mid')], rollback_group=group, k=k, n=n, nontrivial=True, info=info)
     gen_C15_user_state(c, rng, tier)
+    for t in TYPES: gen_sizes(c, rng, tier, t, ['iterations'], ops_fn=lambda cs: [['run', cs], ['reload'], ['rollback', len(cs) // 2 + 1], ['text'], ['run', cs[len(cs) // 2 + 1:]], ['text'], ['rollback', 0], ['text']])
 
 def gen_C15_user_state(c, rng, tier):
     """user-supplied grids / weights (unnormalised, with disabled channels): run, reload, resume, roll back to 0 and to the middle"""
